@@ -7,6 +7,7 @@ CONSTANTS
   MaxAls = 2
   EditVals = {2, 3, 6}
   PairAll = FALSE
+  WithPerturb = FALSE
   WithPinv = FALSE
 INVARIANT HistoryIndependent
 INVARIANT AfterSetTargetInSync
